@@ -395,8 +395,15 @@ func TestC17_Configurations(t *testing.T) {
 			delete(files, cs.ErrorPage)
 			cs.Defaults, cs.Debug, cs.Custom, cs.ErrorPage = true, false, "none", ""
 		}
+		if src, ok := files["page"]; ok && cs.Page == "page" && rapid.IntRange(0, 2).Draw(rt, "pageInOddDirectory") == 0 {
+			// the page in a sub-directory whose name holds a blank, a non-ASCII letter, a percent sign or brackets: the path
+			// shown with debug mode on is the path of the file, as it is
+			cs.Page = rapid.SampledFrom([]string{"sp ace/pa ge", "caf\u00e9/page", "50%off/page", "a(b)[c]/page", "q?x=1#y/page"}).Draw(rt, "oddPath")
+			files[cs.Page] = src
+			delete(files, "page")
+		}
 		if rapid.IntRange(0, 5).Draw(rt, "symlinks") == 0 {
-			for _, n := range []string{"page", cs.ErrorPage, "comp", "layouts/l"} {
+			for _, n := range []string{cs.Page, cs.ErrorPage, "comp", "layouts/l"} {
 				if _, ok := files[n]; ok && rapid.Bool().Draw(rt, "link") {
 					cs.Linked = append(cs.Linked, n)
 				}
